@@ -695,7 +695,8 @@ package graph
 //@   loop 2 invariant dC6(g, queueItem, visited, srchash)
 //@   loop 2 invariant forall(a, any, b, any, imp(in(a, fin) && edge(g, a, b), dd(queueItem, b) <= dd(queueItem, a) + wgt(g, a, b) && (in(b, fin) || !frozen)))
 //@   loop 3 invariant graphKept() && queueItem != nil && visited != nil && srchash == hc(src) && idxinv(queue) && keysOK(queue) && cnt >= 1 && cnt + len(queue) == len(g.hash)
-//@   loop 3 invariant u != nil && has(g.hash, u.v) && queueItem[u.v] == u && has(visited, u.v) && !inq(queue, u) && rmap3 == g.adjacencyOut[u.v] && imp(!in(u.v, fin), frozen) && imp(in(u.v, fin), 0 <= u.distance && u.distance < 2147483647) && imp(!frozen, in(u.v, fin))
+//@   loop 3 invariant u != nil && has(g.hash, u.v) && queueItem[u.v] == u && has(visited, u.v) && !inq(queue, u) && rmap3 == g.adjacencyOut[u.v] && in(u.v, fin) == !frozen && imp(in(u.v, fin), 0 <= u.distance && u.distance <= 2145386496) && cnt <= 2047
+//@   loop 3 invariant forall(a, any, imp(in(a, fin) && in(u.v, fin), dd(queueItem, a) <= u.distance))
 //@   loop 3 invariant dStruct(g, queueItem, queue, visited)
 //@   loop 3 invariant dC0(g, queueItem, visited, srchash)
 //@   loop 3 invariant dC1(g, queueItem, visited, srchash)
